@@ -373,17 +373,6 @@ Qed.
    metadata's leaf count ---- *)
 From MC Require Import Meta_proofs.
 
-Lemma concat_go_in lk : forall (items : list (list stat)) index k l s,
-  nth_error items k = Some l -> In s l ->
-  In (bump 1 (name_len lk (index + N.of_nat k)) (nbits_for (lk_len lk - 1)) s) (concat_go lk items index).
-Proof.
-  induction items as [|l0 r IH]; intros index k l s E Hin; [destruct k; discriminate|].
-  destruct k as [|k]; simpl in E.
-  - injection E as ->. cbn [concat_go]. apply in_or_app. left. rewrite N.add_0_r. apply in_map. exact Hin.
-  - cbn [concat_go]. apply in_or_app. right.
-    replace (index + N.of_nat (S k))%N with (index + 1 + N.of_nat k)%N by lia. eapply IH; eauto.
-Qed.
-
 Lemma skipn_nth {A} : forall (l : list A) j x, nth_error l j = Some x -> skipn j l = x :: skipn (S j) l.
 Proof.
   induction l as [|y l IHl]; intros [|j] x Hn; simpl in *; try discriminate.
